@@ -48,4 +48,38 @@ theorem splice_take_end (buf : Bytes) (i : Nat) (bs : Bytes) (h : i + bs.length 
   have h1 : (buf.take i ++ bs).length = i + bs.length := by simp; omega
   rw [List.take_append_of_le_length (by omega), List.take_of_length_le (by omega)]
 
+theorem write_ok (s t : SliceOut) (bs : Bytes) (h : s.write bs = .ok t) :
+    bs.length ≤ s.buf.length - s.pos ∧ t = ⟨splice s.buf s.pos bs, s.pos + bs.length⟩ := by
+  unfold SliceOut.write SliceOut.remaining at h
+  split at h
+  · simp at h
+  · simp at h; exact ⟨by omega, h.symm⟩
+
+theorem reserve_ok (s t : SliceOut) (k : Nat) (r : Res) (h : s.reserve k = .ok (t, r)) :
+    k ≤ s.buf.length - s.pos ∧ t = ⟨s.buf, s.pos + k⟩ ∧ r = ⟨s.pos, s.pos + k⟩ := by
+  unfold SliceOut.reserve SliceOut.remaining at h
+  split at h
+  · simp at h
+  · simp at h; exact ⟨by omega, h.1.symm, h.2.symm⟩
+
+theorem pairwise_set {α} (R : α → α → Prop) (l : List α) (i : Nat) (x y : α) (hl : l[i]? = some x)
+    (hp : l.Pairwise R) (h1 : ∀ z, R z x → R z y) (h2 : ∀ z, R x z → R y z) : (l.set i y).Pairwise R := by
+  induction l generalizing i with
+  | nil => simp
+  | cons a l ih =>
+    cases i with
+    | zero =>
+      simp at hl; subst hl
+      simp only [List.set_cons_zero, List.pairwise_cons] at hp ⊢
+      exact ⟨fun z hz => h2 z (hp.1 z hz), hp.2⟩
+    | succ i =>
+      simp only [List.getElem?_cons_succ] at hl
+      simp only [List.set_cons_succ, List.pairwise_cons] at hp ⊢
+      refine ⟨?_, ih i hl hp.2⟩
+      intro z hz
+      rcases List.mem_or_eq_of_mem_set hz with hz | rfl
+      · exact hp.1 z hz
+      · exact h1 a (hp.1 x (List.mem_of_getElem? hl))
+
+
 end Slicec
